@@ -1427,8 +1427,8 @@ Definition decomperss (f : decompressor) : decompressor * ierr :=
     else (s, h, idx) in
   (mkD s idx (readPos f) h (rBuf f) (derr f) (peekSize f) (eof f) (haveBits f), err).
 
-(* the two identical "discard what was consumed, forget the input" blocks of step;
-   Some e = Discard failed with e *)
+(* the "discard what was consumed, forget the input" block of step (second site; the first site
+   is step_discard_at below); Some e = Discard failed with e *)
 Definition step_discard (f : decompressor) : option (option berror * decompressor) :=
   let s := state f in
   let discardSize := (Z.of_N (peekSize f) - Z.of_N (r_inlen (rd s)) - Z.quot (r_len (rd s)) 8)%Z in
@@ -1445,6 +1445,28 @@ Definition step_discard (f : decompressor) : option (option berror * decompresso
                               (eof f) (haveBits f)))
     end
   else Some (None, finish f).
+
+(* The first Discard site of step (the "isError(err) || (err == errEndInput && f.eof)" branch)
+   since fix b29ee69: "held := 0; if state.bitsLen > 0 { held = int(state.bitsLen / 8) }".
+   step_discard_at held f is step_discard f with Z.quot bitsLen 8 replaced by held. *)
+Definition step_discard_at (held : Z) (f : decompressor) : option (option berror * decompressor) :=
+  let s := state f in
+  let discardSize := (Z.of_N (peekSize f) - Z.of_N (r_inlen (rd s)) - held)%Z in
+  let finish (f : decompressor) :=
+    set_state f (set_inputNil (set_rd (state f) (br_set_in (rd (state f)) [] 0)) true) in
+  if (0 <? discardSize)%Z then
+    match bDiscard (rBuf f) (Z.to_N discardSize) with
+    | None => None
+    | Some (Some e, rb) =>
+      Some (Some e, mkD (state f) (writePos f) (readPos f) (hist f) rb (derr f) (peekSize f) (eof f)
+                        (haveBits f))
+    | Some (None, rb) =>
+      Some (None, finish (mkD (state f) (writePos f) (readPos f) (hist f) rb (derr f) (peekSize f)
+                              (eof f) (haveBits f)))
+    end
+  else Some (None, finish f).
+Definition held_nonneg (f : decompressor) : Z :=
+  let bl := r_len (rd (state f)) in if (0 <? bl)%Z then Z.quot bl 8 else 0%Z.
 
 (* step: returns the error (None = nil) *)
 Definition step (f : decompressor) : decompressor * option rres :=
@@ -1511,7 +1533,7 @@ Definition step (f : decompressor) : decompressor * option rres :=
       | EFuel => (f, Some RStuck)
       | _ =>
         if isError e || (ierr_eqb e EEndInput && eof f) then
-          match step_discard f with
+          match step_discard_at (held_nonneg f) f with
           | None => (f, Some RStuck)
           | Some (Some be, f) => (f, Some (rres_of_berror be))
           | Some (None, f) =>
